@@ -130,7 +130,25 @@ var e2Assumptions = []string{
 
 func init() {
 	scenarioGens["C01"] = genC01
-	checks["C01"] = func(rc *runCtx) int { return runE1Check(rc, e2Assumptions, nil) }
+	checks["C01"] = func(rc *runCtx) int {
+		extraFindings = func(cov map[string]interface{}) []Finding {
+			f, n := c01ValueKinds()
+			cov["value_kind_scripts_enumerated"] = n
+			return f
+		}
+		return runE1Check(rc, e2Assumptions, nil)
+	}
+	replayers["C01values"] = func(path, prop string, payload map[string]interface{}) int {
+		f, _ := c01ValueKinds()
+		for _, x := range f {
+			fmt.Printf("VIOLATION property=C01 replay=%s\n  %s\n  %s\n", path, x.Signature, x.Detail)
+		}
+		if len(f) > 0 {
+			return 1
+		}
+		fmt.Println("no violation")
+		return 0
+	}
 	replayers["E2"] = func(path, prop string, payload map[string]interface{}) int {
 		tier, _ := payload["tier"].(string)
 		name, _ := payload["scenario"].(string)
